@@ -144,6 +144,29 @@ class World:
             return "Ok"
         if act == "Write":
             return self.write(a)
+        if act == "WriteRow":
+            t, r = a["x"], a["y"] - 1
+            tab = self.tab[t]
+            vals = []
+            for o, x in zip(self.cols[t], a["vs"]):
+                col = self.obj(o)
+                kind = "float" if (col.schema() is not None and col.schema().kind is float) else "int"
+                vals.append(conc(x, kind))
+            before = [list(c) for c in tab.cols()]
+            k = self.pick(3)
+            self.forms.append(["t[r] = row", "t[r, :] = row", "t[r-n, :] = tuple"][k])
+            try:
+                if k == 0:
+                    tab[r] = list(vals)
+                elif k == 1:
+                    tab[r, :] = list(vals)
+                else:
+                    tab[r - len(tab), :] = tuple(vals)
+            except AliasError:
+                if [list(c) for c in tab.cols()] != before:
+                    raise Mismatch("refused_changes_nothing", [list(c) for c in tab.cols()], before)
+                return "Refused"
+            return "Ok"
         if act == "ReadFpV":
             v = self.obj(a["x"])
             had = getattr(v, "_fp", None) is not None
@@ -351,7 +374,9 @@ def target_entity(w, a):
         return set()
     act = a["a"]
     ids = set()
-    if act in ("Write", "Rename"):
+    if act == "WriteRow":
+        ids |= set(w.cols.get(a["x"], [])) | {a["x"]}
+    elif act in ("Write", "Rename"):
         ids.add(a["x"])
         pos = w.column_pos(a["x"])
         if pos is not None:
@@ -534,9 +559,9 @@ def replay_case(case, variant):
             return fails
         if res != a["res"]:
             if last:
-                if a["a"] == "Write" and a["res"] == "Ok" and res == "Refused":
+                if a["a"] in ("Write", "WriteRow") and a["res"] == "Ok" and res == "Refused":
                     fails.append(("spurious_refusal", k, res, a["res"], list(w.forms)))
-                elif a["a"] == "Write" and a["res"] == "Refused" and res == "Ok":
+                elif a["a"] in ("Write", "WriteRow") and a["res"] == "Refused" and res == "Ok":
                     # a shared write that is performed copy-on-write is allowed as long as it stays
                     # local; the histories diverge here, so nothing further is compared
                     fails.append(("note_cow_instead_of_refusal", k, res, a["res"], list(w.forms)))
